@@ -13,6 +13,8 @@ RULE = ('payload = pickle opcode program referencing a global through one route 
         'payload is framed and fed to the real MetricPickleReceiver and CacheManagementHandler while an audit hook, '
         'canary objects and a result-type walker watch; non-trivial = payload that references a global; distinct = '
         'distinct payload bytes')
+RULE_MORE = (' Also: layering of program / instance sections, connections whose set-up failed part-way, several pickles in one frame, and the same routes under python -O / -OO.')
+RULE = RULE + RULE_MORE
 EXHAUSTIVE = {'quick': True, 'thorough': True}
 EXHAUSTIVE_OVER = 'all (module, attribute) pairs of every module in sys.modules of the booted process via GLOBAL and STACK_GLOBAL'
 TIMEOUT = {'quick': 300, 'thorough': 900}
